@@ -122,8 +122,13 @@ class Celestial(Dynamics, metaclass=ABCMeta):
         Returns:
             ``ndarray``: updated state vector after applying any events.
         """
-        # Save original shape of the input state
-        for event, current_time in self._getOccurredEvents(t_events, events):
+        # [NOTE]: there is a single thrust slot, so a finite thrust that ends is switched off before
+        #   one that starts at the same time is switched on.
+        occurred = sorted(
+            self._getOccurredEvents(t_events, events),
+            key=lambda pair: not (isinstance(pair[0], ScheduledFiniteThrust) and pair[0].thrusting),
+        )
+        for event, current_time in occurred:
             if isinstance(event, ScheduledFiniteThrust):
                 self.finite_thrust = event.getStateChangeCallback(current_time)
             else:
@@ -153,14 +158,14 @@ class Celestial(Dynamics, metaclass=ABCMeta):
         ]
         if occurred:
             # The solver only reports the first of several terminal events that occur at the same
-            # time, so scheduled impulses coinciding with the time integration stopped at are
-            # collected as well, otherwise they are silently dropped.
+            # time, so scheduled impulses and finite thrust boundaries coinciding with the time
+            # integration stopped at are collected as well, otherwise they are silently dropped.
             stop_time = max(time for _, time in occurred)
             occurred.extend(
                 (event, stop_time)
                 for t_event, event in zip(t_events, events)
                 if t_event.size == 0
-                and isinstance(event, ScheduledImpulse)
+                and isinstance(event, (ScheduledImpulse, ScheduledFiniteThrust))
                 and event(stop_time, None) == 0.0
             )
         return occurred
